@@ -261,18 +261,29 @@ PROPS = {
         technique='bounded run-time contracts through an adapter, against pyzx\'s own tensor semantics'),
     'C18': dict(
         title='Grammar front-ends only produce well-typed, grammatical derivations',
-        level='exploration',
-        vc=[], sym=[], rtc='C18',
-        level_text='Bounded stand-in: eager_parse on all sentences of <= 3 (sampled 4) words over a 10-word vocabulary incl. '
-                   'double adjoints and an empty word (empty domain, requested target, the words in order followed only by cups '
-                   'on adjacent adjoint types, re-derived independently by scanning), brute_force; CFG.generate over 40 seeds x 3 '
-                   'depth limits (derivation of the start symbol from the given productions, not_twice honoured); biclosed -> '
-                   'rigid: FA/BA over all pairs and FC/BC/FX/BX over triples of 10 slash types (nested, composite left and right '
-                   'sides), Curry for every 1 <= n_wires <= len(dom) on both sides, derivations and CCG trees: the image exists, '
-                   'is well-typed and its dom/cod are the images of dom/cod.',
-        level_note='No obligation proved. Contract precondition for Curry: 1 <= n_wires <= len(dom) (n_wires = 0 is outside the '
-                   'documented domain).',
-        technique='bounded run-time contracts with independent re-derivation of the parse'),
+        level='proof',
+        vc=['rigid.Diagram.fa', 'rigid.Diagram.ba', 'rigid.Diagram.fc', 'rigid.Diagram.bc', 'rigid.Diagram.fx',
+            'rigid.Diagram.bx', 'rigid.Diagram.curry'], sym=[], rtc='C18',
+        level_text='Proved (VC, all type lengths incl. empty): the rigid images of the seven categorial rules. With F(a << b) = '
+                   'F(a) @ F(b).l and F(a >> b) = F(a).r @ F(b), the real bodies of rigid.Diagram.fa / ba / fc / bc / fx / bx / '
+                   'curry, run on arbitrary symbolic types A, B, C (adjoints as uninterpreted functions with the pregroup facts: '
+                   'length preserved, .l and .r mutually inverse, order-reversing on concatenations), return a well-formed '
+                   'diagram whose dom / cod are exactly the images of the rule\'s dom / cod, and no exception escapes: this '
+                   'is where the wire counting (`-len(right) or len(left)`, `-n_wires or len(dom)`) is decided for every '
+                   'nesting depth at once.  NOT proved, bounded stand-in only: the rule dispatch of biclosed.Functor.__call__, '
+                   'the CCG tree walk, the eager / brute-force pregroup parser and CFG.generate: eager_parse on all sentences '
+                   'of <= 3 (sampled 4) words over a 10-word vocabulary incl. double adjoints and an empty word (empty domain, '
+                   'requested target, the words in order followed only by cups on adjacent adjoint types, re-derived '
+                   'independently by scanning), brute_force; CFG.generate over 40 seeds x 3 depth limits; biclosed -> rigid: '
+                   'FA/BA over all pairs and FC/BC/FX/BX over triples of 10 slash types (nested, composite sides), Curry for '
+                   'every 1 <= n_wires <= len(dom) on both sides, derivations and CCG trees.',
+        level_note='Assumed call-site contracts (exercised by the bounded driver, not proved): rigid cups(l, r) / caps(l, r) '
+                   'return a well-formed diagram l @ r -> Ty() / Ty() -> l @ r when l.r == r or r.r == l and raise AxiomError '
+                   'otherwise; swap(l, r) returns a well-formed l @ r -> r @ l; Upgrade is the identity on the modelled fields. '
+                   'Contract precondition for Curry: 1 <= n_wires <= len(dom) (n_wires = 0 is outside the documented domain). '
+                   'The parser / generator / dispatch clauses are bounded, not proved.',
+        technique='VCs from the real AST of the rule images discharged by z3 / cvc5 over word equations with adjoints; bounded '
+                  'run-time contracts with independent re-derivation for the parser, generator and dispatch'),
     'C19': dict(
         title='Cartesian diagrams compute the function they draw',
         level='exploration',
@@ -332,4 +343,4 @@ FIX_COMMITS = ['da35a0f fix: Y gate', 'e208434 fix: Ry', '1d0097a fix: Controlle
 def claimed():
     return sorted(PROPS)
 
-CONTRACT_MODULES = ['core', 'rewriting', 'lemmas', 'eqhash', 'functors']
+CONTRACT_MODULES = ['core', 'rewriting', 'lemmas', 'eqhash', 'functors', 'grammar']
